@@ -70,7 +70,7 @@ def main() -> int:
     ck.cov["distinct_nontrivial"] = nontrivial
     ck.cov["nodes_observed"] = nodes_total
     ck.cov["rule"] = (
-        "G (TLC): %d meta-models (5 fixed hierarchies incl. abstract root with model type, abstract middle class, concrete class with a concrete descendant, "
+        "G (TLC): %d meta-models (6 fixed hierarchies incl. abstract root with model type, abstract middle class, concrete class with a concrete descendant, a diamond with descendable properties on the shared ancestor, "
         "multiple inheritance with a declared default, recursive class; + seeded sample of the parametric family), %d distinct instance graphs (nesting <= %d, "
         "lists of 0-2, optionals set/unset, every concrete descendant in every class-typed slot); every node of every graph is exercised (%d nodes); "
         "non-trivial = a graph with at least one nested instance" % (len(models), len(instances), max([s["depth"] for s in shapes] or [0]), nodes_total)
